@@ -52,13 +52,15 @@ class Grammar:
 
     def decls(self):
         """top level declarations as text, in canonical order"""
-        d = ['token ' + ' '.join(self.tokens) + ';']
-        if self.skip: d.append('skip ' + ' '.join(self.skip) + ';')
-        if self.right: d.append('right ' + ' '.join(self.right) + ';')
+        sym = self.meta.get('symbols') or ()
+        def ref(t): return symbol_of(t) if t in sym else t
+        d = ['token ' + ' '.join(t + ('=' + symbol_of(t) if t in sym else '') for t in self.tokens) + ';']
+        if self.skip: d.append('skip ' + ' '.join(ref(t) for t in self.skip) + ';')
+        if self.right: d.append('right ' + ' '.join(ref(t) for t in self.right) + ';')
         d.append(f'start {self.start};')
         if self.parts: d.append('part ' + ' '.join(self.parts) + ';')
         for n, e, r in self.rules:
-            d.append(f"{n}{'^' if e else ''}: {show(r)};" if r is not None else f"{n}{'^' if e else ''}:;")
+            d.append(f"{n}{'^' if e else ''}: {show(r, 0, sym)};" if r is not None else f"{n}{'^' if e else ''}:;")
         return d
 
     def text(self, perm=None):
@@ -94,18 +96,29 @@ def is_pratt(name, r):
 
 PREC = {'alt': 0, 'choice': 1, 'seq': 2}
 
-def show(x, ctx=0):
+def symbol_of(t): return "'" + t.lower() + "'"
+
+def symbolize(g, which=None):
+    """the same grammar with (some of) its tokens declared with a symbol (`token A='a'`) and referenced by it (`'a'`):
+    lelwel resolves, analyses and emits such references through separate code (Regex::Symbol arms)"""
+    import copy
+    h = copy.copy(g); h.meta = dict(g.meta); h.name = g.name + '_sym'
+    h.meta['symbols'] = set(g.tokens[::2] if which is None else which)        # every other token: both arms in one grammar
+    return h
+
+def show(x, ctx=0, sym=()):
     k = x[0]
-    if k == 'tok' or k == 'ref': return x[1]
+    if k == 'tok': return symbol_of(x[1]) if x[1] in sym else x[1]
+    if k == 'ref': return x[1]
     if k in PREC:
         sep = {'alt': ' | ', 'choice': ' / ', 'seq': ' '}[k]
-        s = sep.join(show(y, PREC[k] + (1 if k != 'seq' else 1)) for y in x[1])
+        s = sep.join(show(y, PREC[k] + (1 if k != 'seq' else 1), sym) for y in x[1])
         return '(' + s + ')' if PREC[k] < ctx else s
-    if k == 'opt': return '[' + show(x[1], 0) + ']'
+    if k == 'opt': return '[' + show(x[1], 0, sym) + ']'
     if k in ('star', 'plus'):
         inner = x[1]
-        s = show(inner, 3)
-        if inner[0] in PREC or inner[0] in EPS_KINDS: s = '(' + show(inner, 0) + ')'
+        s = show(inner, 3, sym)
+        if inner[0] in PREC or inner[0] in EPS_KINDS: s = '(' + show(inner, 0, sym) + ')'
         return s + ('*' if k == 'star' else '+')
     if k == 'rename': return '@' + x[1]
     if k == 'elide': return '^'
